@@ -117,14 +117,15 @@ pub open spec fn mc_enter_ok(o: &StateMachine, f: &StateMachine, r: bool, new_st
 }
 /// the begin marker: the buffered lines of the hunk are rendered (the region itself is written directly when it ends,
 /// so whatever is still buffered then would come out after it), nothing is stored, nothing is written yet
-pub open spec fn mc_begin_ok(o: &StateMachine, f: &StateMachine, r: bool, new_state: State) -> bool {
+pub open spec fn mc_begin_ok(o: &StateMachine, f: &StateMachine, r: std::io::Result<bool>, new_state: State) -> bool {
     &&& sm_frame(f, o)
     &&& f.painter.merge_conflict_lines == o.painter.merge_conflict_lines
-    &&& f.painter.writer.hist() == o.painter.writer.hist()
     &&& (f.painter.line_numbers_data is Some) == (o.painter.line_numbers_data is Some)
-    &&& (r ==> f.state == new_state && is_prefix("++<<<<<<<"@, o.line@) && f.painter.minus_lines@.len() == 0 && f.painter.plus_lines@.len() == 0
-              && all_lines(&f.painter) =~= all_lines(&o.painter))
-    &&& (!r ==> f.state == o.state && f.painter == o.painter)
+    // C11: ... and WRITTEN (the region may be long): nothing waits in the output buffer while the region is collected
+    &&& (r == Ok::<bool, std::io::Error>(true) ==> f.state == new_state && is_prefix("++<<<<<<<"@, o.line@) && f.painter.minus_lines@.len() == 0 && f.painter.plus_lines@.len() == 0
+              && f.painter.output_buffer@.len() == 0 && all_lines(&f.painter) =~= all_lines(&o.painter))
+    &&& (r == Ok::<bool, std::io::Error>(false) ==> f.state == o.state && f.painter == o.painter)
+    &&& (!is_prefix("++<<<<<<<"@, o.line@) ==> r == Ok::<bool, std::io::Error>(false))
 }
 /// The stored region is written as: what was buffered, the begin bar, then for Ours and for Theirs a header
 /// followed by the comparison ancestor -> side (every stored line of the ancestor and of that side, once, in
@@ -210,7 +211,7 @@ pub open spec fn mc_line_accounted(o: &StateMachine, f: &StateMachine) -> bool {
     let l = o.line@;
     ||| ((is_prefix("++|||||||"@, l) || is_prefix("++======="@, l)) && mc_only_state_changed(o, f) && f.state is MergeConflict)
     ||| (is_prefix("++<<<<<<<"@, l) && f.state is MergeConflict && f.painter.merge_conflict_lines == o.painter.merge_conflict_lines
-            && f.painter.writer.hist() == o.painter.writer.hist() && f.painter.minus_lines@.len() == 0 && f.painter.plus_lines@.len() == 0
+            && f.painter.output_buffer@.len() == 0 && f.painter.minus_lines@.len() == 0 && f.painter.plus_lines@.len() == 0
             && all_lines(&f.painter) =~= all_lines(&o.painter))
     ||| (is_prefix("++>>>>>>>"@, l) && mc_empty(&f.painter.merge_conflict_lines) && !(f.state is MergeConflict) && f.painter.output_buffer@.len() == 0
             && f.painter.minus_lines@ == o.painter.minus_lines@ && f.painter.plus_lines@ == o.painter.plus_lines@)
@@ -234,7 +235,7 @@ impl<'a> StateMachine<'a> {
     //@|         mc_painter_rest_same(&final(self).painter, &old(self).painter),
 
     //@ fn src/handlers/merge_conflict.rs StateMachine::enter_merge_conflict
-    //@| ensures mc_begin_ok(old(self), final(self), r, State::MergeConflict(*merge_parents, MergeConflictCommit::Ours)),  // @C01,C04:the.hunk.lines.that.precede.a.conflict.region.are.rendered.before.it.the.begin.marker.stores.nothing
+    //@| ensures mc_begin_ok(old(self), final(self), r, State::MergeConflict(*merge_parents, MergeConflictCommit::Ours)),  // @C01,C04,C11:the.hunk.lines.that.precede.a.conflict.region.are.rendered.and.written.before.it.the.begin.marker.stores.nothing
     //@ fn src/handlers/merge_conflict.rs StateMachine::enter_ancestral
     //@| ensures mc_enter_ok(old(self), final(self), r, State::MergeConflict(*merge_parents, MergeConflictCommit::Ancestral), "++|||||||"@),  // @C01,C04:conflict.ancestral.marker.changes.the.state.only
     //@ fn src/handlers/merge_conflict.rs StateMachine::enter_theirs
